@@ -5,8 +5,9 @@
 //! `#[repr(transparent)]` wrappers that forward to the `std` atomics they wrap.
 //!
 //! The seams:
-//!   - shim atomics ([AtomicBool], [AtomicU32], [AtomicU64], [AtomicUsize], [fence()]) reporting *before* every operation
-//!     (a deterministic simulator turns each report into a scheduling point);
+//!   - shim atomics ([AtomicBool], [AtomicU32], [AtomicU64], [AtomicUsize], [fence()]) reporting *before* and *after* every
+//!     operation (a deterministic simulator turns each report into a scheduling point; the report after the operation lets
+//!     the plain, un-instrumented code that follows an atomic operation be interleaved separately from it);
 //!   - [yield_point()] for plain (non-atomic) shared accesses;
 //!   - [spin_hint()] inside spin loops;
 //!   - spurious failure of `compare_exchange_weak` (legal by its contract);
@@ -35,6 +36,8 @@ pub enum PointKind {
     Fence,
     /// a plain (non-atomic) shared access
     Plain,
+    /// right after a shimmed atomic operation completed (so that plain code following it can be separated from it)
+    After,
 }
 
 /// The functions a simulator may install. All of them are called on the thread performing the operation.
@@ -80,6 +83,14 @@ fn hooks() -> Option<&'static HookTable> {
 fn point(kind: PointKind) {
     if let Some(hooks) = hooks() {
         (hooks.sched_point)(kind, Location::caller());
+    }
+}
+
+#[inline(always)]
+#[track_caller]
+fn after() {
+    if let Some(hooks) = hooks() {
+        (hooks.sched_point)(PointKind::After, Location::caller());
     }
 }
 
@@ -165,7 +176,8 @@ pub fn region_check(id: u64, what: &'static str) {
 #[track_caller]
 pub fn fence(order: Ordering) {
     point(PointKind::Fence);
-    atomic::fence(order)
+    atomic::fence(order);
+    after()
 }
 
 macro_rules! shim_atomic {
@@ -190,19 +202,24 @@ macro_rules! shim_atomic {
             #[track_caller]
             pub fn load(&self, order: Ordering) -> $value {
                 point(PointKind::Load);
-                self.0.load(order)
+                let value = self.0.load(order);
+                after();
+                value
             }
             #[inline(always)]
             #[track_caller]
             pub fn store(&self, value: $value, order: Ordering) {
                 point(PointKind::Store);
-                self.0.store(value, order)
+                self.0.store(value, order);
+                after()
             }
             #[inline(always)]
             #[track_caller]
             pub fn swap(&self, value: $value, order: Ordering) -> $value {
                 point(PointKind::Rmw);
-                self.0.swap(value, order)
+                let previous = self.0.swap(value, order);
+                after();
+                previous
             }
             #[inline(always)]
             #[track_caller]
@@ -212,6 +229,8 @@ macro_rules! shim_atomic {
                 if result.is_err() {
                     // a failed CAS is (nearly always) the body of a retry loop: tell the simulator so
                     spin_hint();
+                } else {
+                    after();
                 }
                 result
             }
@@ -229,6 +248,8 @@ macro_rules! shim_atomic {
                 let result = self.0.compare_exchange(current, new, success, failure);
                 if result.is_err() {
                     spin_hint();
+                } else {
+                    after();
                 }
                 result
             }
@@ -248,13 +269,17 @@ macro_rules! shim_atomic_arith {
             #[track_caller]
             pub fn fetch_add(&self, value: $value, order: Ordering) -> $value {
                 point(PointKind::Rmw);
-                self.0.fetch_add(value, order)
+                let previous = self.0.fetch_add(value, order);
+                after();
+                previous
             }
             #[inline(always)]
             #[track_caller]
             pub fn fetch_sub(&self, value: $value, order: Ordering) -> $value {
                 point(PointKind::Rmw);
-                self.0.fetch_sub(value, order)
+                let previous = self.0.fetch_sub(value, order);
+                after();
+                previous
             }
         }
     }
